@@ -816,6 +816,19 @@ def constructible(t, S):
     return r if expr_of(r, S) is not None else ["tuple", r[2]]
 
 
+def mentions_qubit(t, S, _seen=None):
+    """does the type mention qubit anywhere - as a leaf, inside a function type, in a field of a struct?"""
+    _seen = set() if _seen is None else _seen
+    for n in walk_trees(t):
+        if n == ["b", "qubit"]:
+            return True
+        if n[0] == "st" and n[1] in S and n[1] not in _seen:
+            _seen.add(n[1])
+            if any(mentions_qubit(f, S, _seen) for _, f in S[n[1]]["fields"]):
+                return True
+    return False
+
+
 def normalise_slots(slots, S):
     """make every slot's mode applicable to its type (deterministic adjustments)"""
     out = []
@@ -836,6 +849,11 @@ def normalise_slots(slots, S):
         if was_affine and oracle(t, S)[0]:
             t = ["array", t if depth(t) < MAX_DEPTH else ["b", "int"], 1]
         where = s.get("where", "top") if mode in IN_CTX_MODES else "top"
+        if where in ("control", "dagger", "power") and mentions_qubit(t, S):
+            # make()/sink() are declared without unitary flags: handing them a value whose type mentions qubit
+            # (even inside a function type) inside a modifier block is a unitary violation (C24), not a program
+            # of this property's domain
+            where = "top"
         if where == "dagger" and mode.endswith("_unused"):  # no assignments under dagger
             mode = mode[: -len("unused")] + "stmt"
         out.append({"ty": t, "mode": mode, "where": where})
@@ -1045,7 +1063,7 @@ def replay(case):
     if case["kind"] == "seq":
         r = judge_seq(structs, case["items"])
         return None if r is None else (r[0], r[2])
-    res, _, _ = eval_prog(structs, case["slots"])
+    res, _, _ = eval_prog(structs, normalise_slots(case["slots"], {st_["name"]: st_ for st_ in structs}))
     return res[0] if res else None
 
 
